@@ -48,7 +48,7 @@ func (r *Runner) reader(ctx context.Context, label string, stores []sopenv.Store
 			continue
 		}
 		b, err := sopenv.OpenBtree[int, string](ctx, t, o.Name)
-		r.Rec.Add(Ev{Ev: "OpenStore", T: label, S: o.Name, Ok: err == nil, Note: errs(err)})
+		r.Rec.Add(Ev{Ev: "OpenStore", T: label, S: o.Name, Ok: err == nil, Note: errs(err), Opts: optsOf(b, err)})
 		if err != nil {
 			lt.Dead = true
 			break
